@@ -475,7 +475,8 @@ def gen_nondyadic(rng):
 LONG_LENGTHS = [65, 66, 70, 100, 127, 129, 150, 200, 257, 300, 500, 777, 1025, 1100, 1500, 2049, 2100, 2600, 3000]
 LONG_WEIGHTS = [6, 4, 4, 6, 4, 4, 6, 4, 3, 3, 2, 2, 2, 1, 1, 2, 1, 1, 1]
 SCALES = [1e-9, 4e-9, 2.0 ** -30, 1e-6, 1e-3, 1e3, 1e6, 2.0 ** 20]
-LONG_STYLES = ["mix", "mix", "mix", "favourable", "int_u", "int_u", "overshoot", "overshoot", "scaled", "scaled"]
+LONG_STYLES = ["mix", "mix", "mix", "favourable", "int_u", "int_u", "overshoot", "overshoot", "scaled", "scaled",
+               "mean_hits_u", "tiny_after_run"]
 
 
 def _pool(u):
@@ -596,6 +597,41 @@ def _gen_long(rng, kind=None, style=None):
                     return cfg, xs + [last]
         cfg["long"] = "mix"
         return cfg, long_xs(rng, cfg, n)
+    if style == "mean_hits_u":
+        # a finite population whose null conditional mean becomes EXACTLY the (non-dyadic) bound after a few zeros and
+        # stays there while draws equal to the bound follow (the "mean equals u" convention: p = 1 from there on)
+        if kind in ("km", "kw", "kk", "alpha_optcomp"):      # (optimal_comparison is undefined at u = 1)
+            cfg["kind"] = kind = rng.choice(["alpha_shrink", "alpha_fixed", "bet_agrapa", "bet_fixed", "sprt"])
+            cfg = dict(gen_cfg(rng, kind=kind), long=style)
+        u = C.frac(rng.choice([0.7, 0.55, 0.9, 1 / 3, 1.0, 1 / (2 - 0.3), 0.35]))
+        N = rng.choice([60, 61, 100, 250, 1000])
+        z = rng.randint(1, 5)
+        t = C.frac(float(u * (N - z) / N))
+        cfg.update(u=u, t=t, N=N, ro=True)
+        p = cfg["p"]
+        if "eta" in p:
+            p["eta"] = C.frac(float(t + (u - t) * F(rng.randint(1, 8), 8)))
+        if kind == "bet_fixed":
+            p["lam"] = F(rng.randint(0, 16), 16)
+        k = rng.randint(50, min(N - z, 400))
+        return cfg, [F(0)] * z + [u] * k
+    if style == "tiny_after_run":
+        # a long favourable run, then an observation that is tiny but not zero (subnormal doubles included)
+        kind = rng.choice(["km", "kw", "alpha_fixed", "bet_fixed", "kk"])
+        cfg = dict(gen_cfg(rng, kind=kind), long=style)
+        if "g" in cfg["p"]:
+            cfg["p"]["g"] = F(0)
+        if kind == "kk":
+            cfg["N"] = 10 ** 6
+        elif cfg["N"] is not None:
+            cfg["N"] = 10 ** 5
+        if kind in ("km", "kw", "kk"):
+            cfg["t"] = C.frac(rng.choice([1e-3, 0.01, 0.25])) * cfg["u"]
+        u = cfg["u"]
+        n = rng.choice([130, 400, 1100])
+        tiny = C.frac(rng.choice([5e-324, 1e-315, 1e-300, 1e-200]))
+        tail = [tiny if rng.random() < 0.5 else F(0), u, tiny]
+        return cfg, [u] * n + tail
     # scaled: an ordinary case expressed in other units
     cfg2, xs = (gen_nondyadic(rng) if rng.random() < 0.5 else (None, None))
     if cfg2 is None or cfg2["kind"] == "alpha_optcomp":
